@@ -274,3 +274,26 @@ var verifDrainOnce sync.Once
 
 // VerifZeroThreshold is the real kink-model refinement of an edge-multi trigger index.
 func VerifZeroThreshold(raw []RawType, i int32) int32 { return zeroThreshold(raw, i, true) }
+
+// VerifStartSocket runs the real startSocket (the publisher goroutine behind the pulse-record port, or
+// behind the summary port) on the given TCP port.  send hands one batch of records to it exactly as
+// DataPublisher.PublishData does; stop closes the feeding channel, which destroys the socket.
+func VerifStartSocket(port int, summaries bool) (send func(recs []VerifRecord), stop func(), err error) {
+	conv := messageRecords
+	if summaries {
+		conv = messageSummaries
+	}
+	ch, err := startSocket(port, conv)
+	if err != nil {
+		return nil, nil, err
+	}
+	send = func(recs []VerifRecord) {
+		rs := make([]*DataRecord, len(recs))
+		for i, v := range recs {
+			rs[i] = v.record()
+		}
+		ch <- rs
+	}
+	stop = func() { close(ch) }
+	return send, stop, nil
+}
